@@ -1,7 +1,7 @@
 """Helpers shared by the contract sidecars."""
 from pyvc import envmodel as EM
 from pyvc.contract import NS, Loop, Unit
-from pyvc.engine import Forall, MDict, MList, MSet, PyObj, ExcVal
+from pyvc.engine import Forall, ForallCases, MDict, MList, MSet, PyObj, ExcVal
 from pyvc.values import (SBool, SBytes, SInt, SSet, SStr, b_and, b_not, b_or, conc, implies, ite, slen, smax, smin)
 
 T = SBool.of(True)
